@@ -1,7 +1,7 @@
 (* C16_Props.v — the property theorems of C16 and nothing else.
    Histories are ARBITRARY lists of actions; every action is one critical section of
    tracer.go / builder.go, so every interleaving of the goroutines is one such list. *)
-From V Require Import C16_Spec C16_Proofs C16_Conc C16_ConcProofs C16_Mw C16_MwProofs C16_Run C16_RunProofs.
+From V Require Import C16_Spec C16_Proofs C16_Conc C16_ConcProofs C16_Mw C16_MwProofs C16_Run C16_RunProofs C16_Hdr C16_HdrProofs.
 Open Scope N_scope.
 
 (* The slot map always shows what the history says: the latest Init/Clear of the name
@@ -275,6 +275,32 @@ Theorem roundtrip_completes_once_any_body : forall nm k y,
 Proof. exact roundtrip_completes_once_any_body_proof. Qed.
 Print Assumptions roundtrip_completes_once_any_body.
 
+(* Request headers of a client-side trace (builder.go newBuilder): the httptrace hook keeps
+   storing the fields the transport reports in ONE live map, also after a cancellation has
+   completed the trace.  For ALL orders of reported fields, completion and reads: every header
+   value the delivered trace hands out (to the collector at completion, to any later reader)
+   holds at the end exactly what it held when it was handed out - the transport's later
+   writes never reach a value a consumer holds (so a consumer iterating it without the lock
+   does not race the transport). *)
+Theorem delivered_headers_frozen_after_completion : forall acts r c,
+  In (r, c) (hrun HClone acts).(h_got) -> deref (hrun HClone acts) r = c.
+Proof. exact delivered_headers_frozen_after_completion_proof. Qed.
+Print Assumptions delivered_headers_frozen_after_completion.
+
+(* ... what the collector takes at completion is the set of fields reported before it
+   (last value per key), whatever follows ... *)
+Theorem completion_takes_fields_so_far : forall p pre post,
+  existsb is_hcomplete pre = false ->
+  exists r rest, (hrun p (pre ++ HComplete :: post)).(h_got) = (r, fields_of pre) :: rest.
+Proof. exact completion_takes_fields_so_far_proof. Qed.
+Print Assumptions completion_takes_fields_so_far.
+
+(* ... and an undelivered trace hands out nothing. *)
+Theorem nothing_handed_out_before_completion : forall p acts,
+  existsb is_hcomplete acts = false -> (hrun p acts).(h_got) = [].
+Proof. exact nothing_handed_out_before_completion_proof. Qed.
+Print Assumptions nothing_handed_out_before_completion.
+
 (* ---- non-vacuity ---- *)
 Definition a := bs "a".
 Definition b := bs "b".
@@ -471,3 +497,19 @@ Example ex_nobody_unwrapped :
 Proof. reflexivity. Qed.
 Example ex_exchange_over : exchange_over BNoBody y_empty.
 Proof. right. left. reflexivity. Qed.
+
+(* the clone matters: field 1 reported, cancellation, field 2 reported late.  With the clone the
+   collector's value stays {1}; a getHeaders that returns the live map (seeded C16-14) hands out
+   cell 0, which the transport then writes: the delivered value has become {1, 2} *)
+Definition late_field : list hact := [HField 1 1; HComplete; HField 2 1; HRead].
+Example ex_clone_frozen :
+  let s := hrun HClone late_field in
+  map (fun rc => (snd rc, deref s (fst rc))) s.(h_got) = [([(1, 1)], [(1, 1)]); ([(1, 1); (2, 1)], [(1, 1); (2, 1)])].
+Proof. reflexivity. Qed.
+Example ex_live_map_written_after_completion :
+  let s := hrun HLive late_field in
+  map (fun rc => (snd rc, deref s (fst rc))) s.(h_got) = [([(1, 1)], [(1, 1); (2, 1)]); ([(1, 1); (2, 1)], [(1, 1); (2, 1)])].
+Proof. reflexivity. Qed.
+Example ex_hdr_hypotheses : existsb is_hcomplete [HField 1 1; HRead; HField 0 3] = false
+  /\ fields_of [HField 1 1; HRead; HField 0 3; HField 1 2] = [(1, 2)].
+Proof. split; reflexivity. Qed.
